@@ -40,6 +40,9 @@ import inspect
 ID = "C26"
 LEVEL = "model_checking"
 PKG = "c26pk"
+# second package name: unions are ordered by the string form of their members; with "c26pk" every user class
+# sorts BEFORE list/dict/set/tuple, with "z26pk" after them (mode flag "z" in the plan's third column)
+PKG_Z = "z26pk"
 
 
 # ------------------------------------------------------------------ world
@@ -48,7 +51,9 @@ def _labels(n, reduced):
     nxt = "C1" if n > 1 else "C0"
     req = [f"C{i}" for i in range(n)]
     req += ["object", "int", "None", "Any", "list[C0]", f"list[{nxt}]", "list", f"dict[str,{nxt}]",
-            "set[C0]", f"tuple[C0,{nxt}]", "U[C0|None]", f"U[C0|{last}]" if n > 1 else "U[C0]"]
+            "set[C0]", f"tuple[C0,{nxt}]", "U[C0|None]", f"U[C0|{last}]" if n > 1 else "U[C0]",
+            # a union whose first member (by string order) is a parametrised container
+            f"U[list[C0]|{nxt}]"]
     gen = [last, f"list[{last}]", "Any", "U[C0|None]", f"tuple[C0,{nxt}]", "set[C0]"]
     if reduced:
         req = [x for x in req if x not in ("object", "list", "set[C0]", f"dict[str,{nxt}]")]
@@ -77,12 +82,12 @@ class World:
         self.spec = tuple(tuple(b) for b in spec)
         self.n = len(self.spec)
         self.reduced = reduced
-        self.mod = tw.write_module(root, PKG, self.spec)
+        self.mod = tw.write_module(root, PKG_Z if reduced == "z" else PKG, self.spec)
         self.systems = [Sys("rank", tw.analyse(self.mod, selection="RANK_SELECTION")),
                         Sys("rand", tw.analyse(self.mod, selection="RANDOM_SELECTION"))]
         assert type(self.systems[0].prov) is gen.GeneratorProvider
         assert type(self.systems[1].prov) is gen.RandomGeneratorProvider
-        self.req, self.gen_labels = _labels(self.n, reduced)
+        self.req, self.gen_labels = _labels(self.n, reduced is True)
         self.users = tw.user_infos(self.systems[0].cluster, self.mod, self.n)
         self.types: dict = {}
         self.kinds: dict = {}
@@ -124,7 +129,7 @@ class World:
         nxt = "C1" if self.n > 1 else "C0"
         evs += [("ret", f"{pre}.c0_list", "None"), ("ret", f"{pre}.c0_none", "int"),
                 ("ret", f"{pre}.c0_tuple", f"tuple[C0,{nxt}]"), ("ret", f"{pre}.c0_union", "int")]
-        if self.reduced:
+        if self.reduced is True:
             evs = [e for e in evs if e[1] not in (f"{pre}.c0_tuple", f"{pre}.c0_union")]
         return list(dict.fromkeys(evs))
 
@@ -405,7 +410,8 @@ def check_history(col, W, hist, observe=None):
                 for gname, gt in table.items():
                     col.count("offers_judged")
                     if not ref.is_maybe_subtype(gt, W.types[lab]):
-                        col.violation(f"C26|incompatible|{who}|req={W.kinds[lab]}|gen={tw.kind(gt)}",
+                        cause = f"|{_args_cause(ref, gt, W.types[lab])}" if W.kinds[lab] == "union" else ""
+                        col.violation(f"C26|incompatible|{who}|req={W.kinds[lab]}|gen={tw.kind(gt)}{cause}",
                                       f"{name} history {hist}: {who} offers {gname} (generates {gt}) for requested "
                                       f"{lab}, but is_maybe_subtype({gt}, {lab}) is False", data, rank=rank)
                         col.distinct("outcomes", ("incompatible", who))
@@ -418,10 +424,30 @@ def check_history(col, W, hist, observe=None):
         col.count("provider_sets_differ")
         for only, mine, other in (("rank", a, b), ("rand", b, a)):
             for gname in sorted(set(mine) - set(other)):
-                col.violation(f"C26|provider-diff|only={only}|req={W.kinds[lab]}|gen={tw.kind(mine[gname])}",
+                cause = f"|{_args_cause(ref, mine[gname], W.types[lab])}" if W.kinds[lab] == "union" else ""
+                col.violation(f"C26|provider-diff|only={only}|req={W.kinds[lab]}|gen={tw.kind(mine[gname])}{cause}",
                               f"{name} history {hist}: for requested {lab} only the "
                               f"{'GeneratorProvider' if only == 'rank' else 'RandomGeneratorProvider'} offers "
                               f"{gname} (generates {mine[gname]})", data, rank=rank)
+
+
+def _args_cause(ref, gt, requested):
+    """For a union request: is the (wrongly) offered generator explained by treating a generic container as
+    covariant in its arguments (the known generic-invariance finding), or are the arguments unrelated?"""
+    import pynguin.analyses.typesystem as ts
+
+    def members(t):
+        return list(t.items) if isinstance(t, ts.UnionType) else [t]
+
+    for g in members(gt):
+        if not (isinstance(g, ts.Instance) and g.args):
+            continue
+        for r in members(requested):
+            if isinstance(r, ts.Instance) and r.args and r.type == g.type and len(r.args) == len(g.args):
+                if all(ref.is_maybe_subtype(ga, ra) for ga, ra in zip(g.args, r.args)):
+                    return "covariant-args"
+                return "unrelated-args"
+    return "other"
 
 
 def explore(col, W, depth, root, selfcheck_root=None):
@@ -472,22 +498,24 @@ def plan(tier):
     specs, _ = tw.hierarchies(3)
     un = tw.unordered(specs)
     if tier == "quick":
-        # every hierarchy on <= 2 classes; on 3 classes: unrelated, chain, fork, join (multiple inheritance)
-        pick3 = [((), (), ()), ((), (0,), (1,)), ((), (0,), (0,)), ((), (), (0, 1))]
+        # every hierarchy on <= 2 classes; on 3 classes: unrelated, chain, fork, join (multiple inheritance), C2 under C1 with C0 unrelated
+        pick3 = [((), (), ()), ((), (0,), (1,)), ((), (0,), (0,)), ((), (), (0, 1)), ((), (), (1,))]
         for s in pick3:
             assert s in un, s
-        return [(s, 3, False) for s in un if len(s) <= 2] + [(s, 3, False) for s in pick3]
+        return [(s, 3, False) for s in un if len(s) <= 2] + [(s, 3, False) for s in pick3] + \
+            [(s, 2, "z") for s in pick3]
     specs4, _ = tw.hierarchies(4, 4)
     un4 = tw.unordered(specs4)
     deep = [s for s in un if len(s) <= 2] + [((), (0,), (0,)), ((), (0,), (1, 0)), ((), (), (1, 0))]
-    return [(s, 4, True) for s in deep] + [(s, 3, False) for s in un] + [(s, 2, False) for s in un4]
+    return [(s, 4, True) for s in deep] + [(s, 3, False) for s in un] + [(s, 2, False) for s in un4] + \
+        [(s, 3, "z") for s in un if len(s) == 3]
 
 
 def multi_shard(col, jobs, want_sample):
     from mc import typeworld as tw
 
     # jobs of one world are run back to back and only that world (with its memo of fresh answers) is kept
-    jobs = sorted(jobs, key=lambda j: (len(j[1]), repr(j[1]), j[4]))
+    jobs = sorted(jobs, key=lambda j: (len(j[1]), repr(j[1]), repr(j[4])))
     cur_key, W = None, None
     for root, spec, depth, first, reduced in jobs:
         key = (tuple(map(tuple, spec)), reduced)
@@ -531,7 +559,7 @@ def run(ctx):
     ctx.require(len(ctx.col.sets.get("outcomes", ())) >= 6, "vacuous: too few distinct outcomes")
     ctx.require(c.get("provider_sets_equal", 0) > 0 and c.get("offers_judged", 0) > 0, "vacuous: nothing offered")
     ctx.require(c.get("selfchecks_against_new_clusters", 0) > 0, "reset was never cross-checked")
-    ctx.note("plan", [f"{tw.spec_name(s)} depth={d} alphabet={'reduced' if r else 'full'}" for s, d, r in the_plan])
+    ctx.note("plan", [f"{tw.spec_name(s)} depth={d} alphabet={'reduced' if r is True else 'full'}{' pkg=z26pk' if r == 'z' else ''}" for s, d, r in the_plan])
     ctx.exhaustive = True
     ctx.rule = ("state = canonical history (blocks of commuting queries / updates sorted); every history of <= depth "
                 "events ending in an update is replayed on reset real clusters and its queries are read back")
